@@ -400,7 +400,7 @@ class Interp:
             raise Undecided(f"inlining depth {self.max_depth} exceeded at {fi.qual}")
         a = fi.node.args
         params = [p.arg for p in a.posonlyargs + a.args]
-        env = {"__class__": fi.cls, "__mod__": fi.mod}
+        env = {"__class__": fi.cls, "__mod__": fi.mod, "__locals__": _assigned_names(fi.node)}
         vals = list(args)
         if self_obj is not None and not fi.is_static:
             vals = [self_obj] + vals
@@ -840,6 +840,8 @@ class Interp:
             if mod.imports[e.id][0] >= 1 and e.id.startswith("_"):
                 raise Undecided(f"`{e.id}` is imported from inside the package but its definition was not found")
             return Opaque(e.id)  # imported from outside the package (datetime, ...)
+        if e.id in env.get("__locals__", ()):
+            raise PyRaise(f"UnboundLocalError: cannot access local variable '{e.id}' where it is not associated with a value", e)
         raise Undecided(f"unbound name {e.id}")
 
     def e_Attribute(self, e, env):
@@ -1439,6 +1441,30 @@ class Interp:
 
     def _comp(self, e, env, ctor):
         return ctor(list(self._comp_iter(e, env)))
+
+
+def _assigned_names(fnode):
+    """names the function binds somewhere in its own body (its locals): reading one before it is bound is Python's
+    UnboundLocalError, not an unknown"""
+    r = getattr(fnode, "_assigned", None)
+    if r is None:
+        r = set()
+        stack = list(fnode.body)
+        glob = set()
+        while stack:
+            n = stack.pop()
+            if isinstance(n, (ast.FunctionDef, ast.AsyncFunctionDef, ast.Lambda, ast.ClassDef)):
+                if isinstance(n, (ast.FunctionDef, ast.AsyncFunctionDef, ast.ClassDef)):
+                    r.add(n.name)
+                continue
+            if isinstance(n, (ast.Global, ast.Nonlocal)):
+                glob |= set(n.names)
+            if isinstance(n, ast.Name) and isinstance(n.ctx, ast.Store):
+                r.add(n.id)
+            stack.extend(ast.iter_child_nodes(n))
+        r -= glob
+        fnode._assigned = r = frozenset(r)
+    return r
 
 
 def _is_enum(cls):
